@@ -275,6 +275,8 @@ def coq_programs(ctx, programs, attr_cases, all_res):
     ctx.obligation("holder attributes read are installed (attrs_closed = true per schema)", not bad_attrs, str(bad_attrs[:5]))
     for fam, idx, why, code in untranslated_total[:5]:
         ctx.not_shown(f"closedness of a program of schema {fam}/{idx}", f"outside the translated subset ({why}):\n{code[:1500]}")
+    for fam, idx, code in bad_programs[:8]:
+        ctx.notes.append(f"check_closed=false for a program of schema {fam}/{idx}: " + code[:3000])
     for fam, idx, code in bad_programs[:5]:
         ctx.not_shown(f"closedness of a program of schema {fam}/{idx}",
                       "check_closed = false: some path loads a name that is unbound / not in the namespace:\n" + code[:2500])
